@@ -132,12 +132,17 @@ func VerifC06Envelope() {
 	// what the issuer signed
 	sig0 := vBytes("sig0", 3)
 	cmd0 := vString("cmd0", 2)
-	env0, sp0 := c06Envelope(sig0, envelope.VarsigHeaderKey, hdr, Tag, c06IssA, cmd0, false)
+	// the issuer may have signed a SigPayload with any header (e.g. one that announces another scheme)
+	h0 := hdr
+	if vChoose("signed_header_is_foreign", 2) == 1 {
+		h0 = vBytes("h0", []int{len(hdr), len(hdr) - 1, 0, len(hdr) + 1}[vChoose("h0_len", 4)])
+	}
+	env0, sp0 := c06Envelope(sig0, envelope.VarsigHeaderKey, h0, Tag, c06IssA, cmd0, false)
 	c06.signedData, c06.signedSig = c06Encode(sp0), sig0
 
 	if vChoose("honest_first", 2) == 1 {
 		tkn, err := envelope.FromIPLD[*tokenPayloadModel](env0)
-		if c06.mode == 0 && len(c06.askedDIDs) == 1 && c06.calls == 1 {
+		if c06.mode == 0 && len(c06.askedDIDs) == 1 && c06.calls == 1 && vConcBool(vEqBytes(h0, hdr)) {
 			vReach("honest-decoded")
 			vAssert(err == nil && tkn != nil, "the honest token is rejected although the issuer's key verifies it")
 		}
